@@ -34,4 +34,5 @@ Next == Step
 ASSUME SizesAgree
 ASSUME PathsReachTarget
 ASSUME ReaderWriterAgree
+ASSUME RelocConsistent
 =============================================================================
